@@ -382,28 +382,38 @@ def _joint_R(case):
 
 
 def _worker(cases):
+    """Every case is guarded: an exception while setting a case up (parsing, reference builds), judging it or
+    building its witness becomes a failure record of that case (class oracle-not-applicable:<Type>)."""
     n_eval, keys, samples, failures, skipped = 0, set(), [], [], 0
+    first_skipped = None
     seen = {}
     for case in cases:
-        nontrivial, fails, sk = run_one(case)
         n_eval += 1
-        if sk:
-            skipped += 1
-            continue
-        if nontrivial:
-            keys.add(K.khash(case))
-            if len(samples) < 2:
-                samples.append(_describe(case))
-        for clause, cls, detail in fails:
-            seen[(clause, cls)] = seen.get((clause, cls), 0) + 1
-            w = {"case": _describe(case)}
-            if seen[(clause, cls)] <= K.MAX_REPORTED_PER_CLASS:
-                with warnings.catch_warnings():
-                    warnings.simplefilter("ignore")
-                    w["code"] = repro(case, clause, _joint_R(case))
-            failures.append({"clause": clause, "cls": cls, "witness": w, "detail": detail})
+        try:
+            nontrivial, fails, sk = run_one(case)
+            if sk:
+                skipped += 1
+                first_skipped = first_skipped or _describe(case)
+                continue
+            if nontrivial:
+                keys.add(K.khash(case))
+                if len(samples) < 2:
+                    samples.append(_describe(case))
+            for clause, cls, detail in fails:
+                seen[(clause, cls)] = seen.get((clause, cls), 0) + 1
+                w = {"case": _describe(case)}
+                if seen[(clause, cls)] <= K.MAX_REPORTED_PER_CLASS:
+                    try:
+                        with warnings.catch_warnings():
+                            warnings.simplefilter("ignore")
+                            w["code"] = repro(case, clause, _joint_R(case))
+                    except Exception as e:
+                        w["code_unavailable"] = f"{type(e).__name__}: {e}"
+                failures.append({"clause": clause, "cls": cls, "witness": w, "detail": detail})
+        except Exception as e:
+            failures.append(K.oracle_failure(e, "C07.part.equals-separate-build", repr(case)[:600]))
     if skipped:
-        failures.append({"skipped": skipped})
+        failures.append({"skipped": skipped, "first": first_skipped})
     return n_eval, keys, samples, failures
 
 
@@ -547,22 +557,32 @@ def shared_term_cases(rng, skels2, skels3, thorough, rows=6):
 
 
 def _run_driver(ctx, b, tasks, cls_prefix):
-    rep = K.Reporter(ctx, b)
-    results = K.run_pool(_worker, tasks, chunk=60)
-    skipped = 0
-    for n_eval, keys, samples, failures in results:
-        b.add_counts(n_eval, keys, samples)
-        skipped += sum(f["skipped"] for f in failures if "skipped" in f)
-        for f in failures:
-            if "skipped" not in f:
-                f["cls"] = cls_prefix + f["cls"]
-        rep.absorb([f for f in failures if "skipped" not in f])
-    rep.note()
-    if skipped:
-        ctx.notes.append(f"bounded:{b.name}: {skipped} cases skipped (a part could not be built separately)")
+    rep = K.Reporter(ctx, b, fallback_clause="C07.part.equals-separate-build")
+    with K.guard(ctx, "C07.part.equals-separate-build", b.name):
+        results = K.run_pool(_worker, tasks, chunk=60)
+        skipped, total, first = 0, 0, None
+        for n_eval, keys, samples, failures in results:
+            b.add_counts(n_eval, keys, samples)
+            total += n_eval
+            for f in failures:
+                if "skipped" in f:
+                    skipped += f["skipped"]
+                    first = first or f.get("first")
+                else:
+                    f["cls"] = cls_prefix + f["cls"]
+            rep.absorb([f for f in failures if "skipped" not in f])
+        if total and skipped > 0.25 * total:
+            # the statement's reference value is the separate build of each part: when that build fails for a
+            # large share of ordinary parts the library is broken, which must not pass as "nothing to compare"
+            rep.fail("C07.part.equals-separate-build", cls_prefix + "separate-build-raises",
+                     {"case": first, "skipped_cases": skipped, "of": total},
+                     f"{skipped} of {total} cases: a part could not be built on its own with the joint drop set (first: {first})")
+        rep.note()
+        if skipped:
+            ctx.notes.append(f"bounded:{b.name}: {skipped} cases skipped (a part could not be built separately)")
 
 
-def run_bounded(ctx):
+def _run_bounded(ctx):
     rng = random.Random(ctx.seed * 7919 + 7)
     ctx.assume(
         "A-C07-joint-rows: the 'jointly dropped rows' are the positions at which some evaluated factor of any part is "
@@ -593,17 +613,7 @@ def run_bounded(ctx):
         exhaustive=False,
         bound="depth<=3, parts<=4, rows=6, 5 columns",
     ) as b:
-        rep = K.Reporter(ctx, b)
-        tasks = list(gen_cases(rng, skels_used, per))
-        results = K.run_pool(_worker, tasks, chunk=60)
-        skipped = 0
-        for n_eval, keys, samples, failures in results:
-            b.add_counts(n_eval, keys, samples)
-            skipped += sum(f["skipped"] for f in failures if "skipped" in f)
-            rep.absorb([f for f in failures if "skipped" not in f])
-        rep.note()
-        if skipped:
-            ctx.notes.append(f"bounded:structures: {skipped} cases skipped (a part could not be built separately)")
+        _run_driver(ctx, b, list(gen_cases(rng, skels_used, per)), "")
     skels2 = [sk for sk in skels if _n_leaves(sk) == 2]
     skels3 = [sk for sk in skels if _n_leaves(sk) == 3]
     with ctx.bounded(
@@ -616,20 +626,8 @@ def run_bounded(ctx):
         exhaustive=False,
         bound="2-3 parts, depth<=3, rows=6, 6 codings",
     ) as b:
-        rep = K.Reporter(ctx, b)
-        tasks = list(shared_factor_cases(random.Random(ctx.seed * 7919 + 77), skels2, skels3, ctx.thorough))
-        results = K.run_pool(_worker, tasks, chunk=60)
-        skipped = 0
-        for n_eval, keys, samples, failures in results:
-            b.add_counts(n_eval, keys, samples)
-            skipped += sum(f["skipped"] for f in failures if "skipped" in f)
-            for f in failures:
-                if "skipped" not in f:
-                    f["cls"] = "shared-coded-factor | " + f["cls"]
-            rep.absorb([f for f in failures if "skipped" not in f])
-        rep.note()
-        if skipped:
-            ctx.notes.append(f"bounded:shared-factor-ranks: {skipped} cases skipped (a part could not be built separately)")
+        _run_driver(ctx, b, list(shared_factor_cases(random.Random(ctx.seed * 7919 + 77), skels2, skels3, ctx.thorough)),
+                    "shared-coded-factor | ")
     with ctx.bounded(
         "shared-term-variants",
         rule=f"the SAME factor combination in two parts of every 2-part skeleton ({len(skels2)}), written with a numeric literal "
@@ -649,3 +647,10 @@ def run_bounded(ctx):
             "part-equals-separate-build / spec-regenerates-part contracts from the C07 statement on the real entry "
             "points over all structure skeletons up to depth 3 and 4 parts"
         )
+
+
+def run_bounded(ctx):
+    """Never raises because of what the library under test returns or raises: anything that slips past the
+    per-case guards is recorded as a violation (class oracle-not-applicable:<Type>) and the run ends normally."""
+    with K.guard(ctx, "C07.part.equals-separate-build", "c07.run_bounded"):
+        _run_bounded(ctx)
